@@ -392,6 +392,8 @@ def check(case, ctx):
         first = None
         for eng in ENGINES:
             crc, cout, cerr = run([C2M, '-w'] + eng[:-1] + ['p.c', eng[-1]], d)
+            if crc == -9:
+                return o.disc('timeout of c2m (machine load): inconclusive')
             if 'AddressSanitizer' in cerr:
                 m = re.search(r'ERROR: AddressSanitizer: (\S+)', cerr)
                 fr = re.search(r'#\d+ 0x[0-9a-f]+ in (\w+) /repo', cerr)
